@@ -301,6 +301,15 @@ def TBag.erase {α : Type} (tb : TBag α) (t : Nat) : TBag α :=
 def TBag.get {α : Type} (tb : TBag α) (t : Nat) : List α :=
   (tb.store.filter (fun p => p.1 == t)).map (·.2)
 
+/-- `tagged_bag::swap`: exchanges the contents (`m_tagged_bag.swap`) AND the tag counters
+(`std::swap(m_next_tag, s.m_next_tag)`) on every rank -/
+def TBag.swap {α : Type} (a b : TBag α) : TBag α × TBag α :=
+  ({ next := b.next, store := b.store }, { next := a.next, store := a.store })
+
+/-- a swap that forgets the counters (not the code; used to show that exchanging them is necessary) -/
+def TBag.swapStoreOnly {α : Type} (a b : TBag α) : TBag α × TBag α :=
+  ({ next := a.next, store := b.store }, { next := b.next, store := a.store })
+
 /-- the rank holding a tag: `std::hash<size_t>` is the identity in libstdc++ (parameter `h`) -/
 def tagOwner (h : Nat → Nat) (t ranks : Nat) : Nat := hashOwner (h t) ranks
 
